@@ -86,6 +86,9 @@ PROPS["C07"] = dict(
                 expect=["impl<P> Component<P> for ElitistArchiveIntoPopulation::execute"]),
            dict(name="archive_update", template="contracts/C07/archive_update.vrs", expect=["ElitistArchive<P>::update", "ElitistArchive<P>::new", "ElitistArchive<P>::elitists"])],
     kani=[dict(files=["contracts/C07/c07.rs"], inject=[dict(file="contracts/C07/c07_archive.rs", into="src/components/archive.rs")])],
+    native=[dict(files=[], inject=[dict(file="contracts/C07/c07_archive_native.rs", into="src/components/archive.rs")],
+                 harnesses={"c07_native_archive_histories": dict(anchor="ElitistArchive::update (histories)",
+                            bound="BOUNDED STAND-IN, native exhaustive enumeration: all 3-update histories with populations of 0..2 individuals, objective values in {1,2,3}, capacities 0..4 (10985 histories)")})],
     min_obligations={"quick": 42, "thorough": 44},
     uncovered=["whole-run clause 'reported best = minimum returned' (placement of updates in templates)"],
     assumptions=["SingleObjective order laws (preamble/objective.rs) = C09 obligations"],
@@ -161,7 +164,11 @@ PROPS["C13"] = dict(
     kani=[dict(files=["contracts/C13/c13.rs"])],
     native=[dict(files=["contracts/C13/c13_native.rs"],
                  harnesses={"c13_native_recombination_counts": dict(anchor="recombination",
-                            bound="BOUNDED STAND-IN, native run: 0..7 parents x pc in {0,1} x insert-one/both x 4 seeds x {uniform, 2-point} crossover")})],
+                            bound="BOUNDED STAND-IN, native run: 0..7 parents x pc in {0,1} x insert-one/both x 4 seeds x {uniform, 2-point} crossover"),
+                            "c13_native_permutation_mutations": dict(anchor="mutation components (permutation)",
+                            bound="BOUNDED STAND-IN, native run: Scramble(rm 0/1), Inversion, Insertion, Translocation, Swap(2..4) x solution length 2..6 x population size 0..3 x 64 seeds"),
+                            "c13_native_value_mutations": dict(anchor="mutation components (real, bit)",
+                            bound="BOUNDED STAND-IN, native run: Normal/Uniform/PartialRandomSpread and BitFlip/PartialRandomBitstring x rm in {0, 0.5, 1} x dimension 1..4 x population size 0..3 x 32 seeds")})],
     min_obligations={"quick": 10, "thorough": 20},
     uncovered=["mutation components' execute (State + RNG)", "recombination() driver is only covered by a BOUNDED native run", "real/bit mutations gated by the rate"],
 )
